@@ -559,7 +559,18 @@ def rename(table: Table, name_map: dict[str | Col | ColName, str]) -> Pipeable:
             )
 
     name_map = {(preprocess_arg(k, table) if isinstance(k, ColName | Col) else k): v for k, v in name_map.items()}
-    name_map = {(table._cache.uuid_to_name[k._uuid] if isinstance(k, Col) else k): v for k, v in name_map.items()}
+    resolved_name_map = {}
+    for k, v in name_map.items():
+        if isinstance(k, Col):
+            if k._uuid not in table._cache.uuid_to_name:
+                raise ValueError(
+                    f"cannot rename hidden column `{k.ast_repr()}` in table `{table._ast.short_name()}`\n"
+                    "hint: A column becomes hidden if you deselected it before or overwrite it in `mutate` "
+                    "or `summarize`."
+                )
+            k = table._cache.uuid_to_name[k._uuid]
+        resolved_name_map[k] = v
+    name_map = resolved_name_map
 
     if d := set(name_map).difference(table._cache.name_to_uuid):
         raise ValueError(f"no column with name `{next(iter(d))}` in table `{table._ast.short_name()}`")
